@@ -18,8 +18,10 @@ pub struct C20;
 pub const CHECK: C20 = C20;
 pub fn plan(t: Tier) -> vcore::Plan {
     // a case costs 1-4 process runs (a few ms each); small chunks so that all workers share the work
-    let mut p = vcore::Plan::new(t.pick(2_400, 60_000), 160);
-    p.chunk = t.pick(50, 500);
+    let mut p = vcore::Plan::new(t.pick(4_000, 120_000), 160);
+    p.chunk = t.pick(100, 1000);
+    // tape shrinking matters little here (few, independent choices; `simplify_at` does the rest) and costs process runs
+    p.max_shrink_iters = 80;
     // the per-invocation timeout (20 s => discard) must fire before the engine's per-case watchdog
     p.case_timeout_s = 150;
     p
@@ -29,6 +31,8 @@ const DEFAULT_SYLT_BIN: &str = "/verif/harness/target/repo-bin/release/sylt";
 const DEFAULT_LUA_DIR: &str = "/verif/harness/target/release";
 const PROC_TIMEOUT: Duration = Duration::from_secs(20);
 const LUA_STEPS: u64 = 5_000_000;
+/// Mode::OutQuota: below the size of the runtime preamble, so no complete program fits
+const QUOTA: u64 = 8192;
 const PREVIOUS: &str = "-- previous content of the output file (C20 sentinel)\n";
 
 #[derive(Clone, Copy, Debug, PartialEq, Eq, Serialize, Deserialize)]
@@ -47,6 +51,11 @@ pub enum Mode {
     OutParentIsFile,
     /// `-o DIR` where DIR is an existing directory
     OutIsDir,
+    /// `-o /dev/full`: the file can be created, every write fails (disk full)
+    OutDevFull,
+    /// `-o FILE` (new) while the process may not grow a file beyond 8 KiB (RLIMIT_FSIZE, SIGXFSZ ignored, so
+    /// `write` returns a short count and then EFBIG) — a quota / nearly full disk
+    OutQuota,
 }
 impl Mode {
     fn name(self) -> &'static str {
@@ -58,11 +67,14 @@ impl Mode {
             Mode::OutMissingDir => "unwritable-missing-dir",
             Mode::OutParentIsFile => "unwritable-parent-is-file",
             Mode::OutIsDir => "unwritable-is-directory",
+            Mode::OutDevFull => "unwritable-dev-full",
+            Mode::OutQuota => "file-size-limited",
         }
     }
     fn kind(self) -> &'static str {
         match self {
             Mode::OutNew | Mode::OutExisting => "file",
+            Mode::OutQuota => "size-limited",
             Mode::Stdout => "stdout",
             Mode::Run => "run",
             _ => "unwritable",
@@ -442,12 +454,40 @@ impl RunOut {
     }
 }
 
+extern "C" {
+    fn setrlimit(resource: i32, rlim: *const [u64; 2]) -> i32;
+    fn signal(signum: i32, handler: usize) -> usize;
+}
+const RLIMIT_FSIZE: i32 = 1; // Linux
+const SIGXFSZ: i32 = 25; // Linux
+const SIG_IGN: usize = 1;
+
 /// Err(()) = timeout
 fn run_sylt(e: &Env, cwd: &Path, args: &[String], labels: &mut Labels) -> Result<RunOut, ()> {
+    run_sylt_limited(e, cwd, args, labels, None)
+}
+
+/// `fsize`: the process may not grow any file beyond that many bytes; SIGXFSZ is ignored (dispositions set to
+/// "ignore" survive exec), so writes past the limit are cut short / fail with EFBIG instead of killing it
+fn run_sylt_limited(e: &Env, cwd: &Path, args: &[String], labels: &mut Labels, fsize: Option<u64>) -> Result<RunOut, ()> {
     use std::io::Read;
+    use std::os::unix::process::CommandExt;
     use std::process::{Command, Stdio};
     labels.add("process-runs");
-    let mut child = match Command::new(&e.sylt)
+    let mut cmd = Command::new(&e.sylt);
+    if let Some(n) = fsize {
+        unsafe {
+            cmd.pre_exec(move || {
+                signal(SIGXFSZ, SIG_IGN);
+                let lim = [n, n];
+                if setrlimit(RLIMIT_FSIZE, &lim) != 0 {
+                    return Err(std::io::Error::last_os_error());
+                }
+                Ok(())
+            });
+        }
+    }
+    let mut child = match cmd
         .args(args)
         .current_dir(cwd)
         .env("NO_COLOR", "1")
@@ -716,7 +756,8 @@ impl C20 {
         let missing = outd.join("missing");
         let target: Option<PathBuf> = match case.mode {
             Mode::Run | Mode::Stdout => None,
-            Mode::OutNew => Some(outd.join("new.lua")),
+            Mode::OutNew | Mode::OutQuota => Some(outd.join("new.lua")),
+            Mode::OutDevFull => Some(PathBuf::from("/dev/full")),
             Mode::OutExisting => {
                 let p = outd.join("existing.lua");
                 if std::fs::write(&p, &previous).is_err() {
@@ -752,7 +793,14 @@ impl C20 {
         let req = case.require.as_deref();
         let args = build_args(&proj.main, out_arg.as_deref(), req, case.no_std, case.order, case.long_flags);
         let cmdline = format!("sylt {}", args.join(" "));
-        let r = run!(&args);
+        let r = if case.mode == Mode::OutQuota {
+            match run_sylt_limited(e, dir, &args, labels, Some(QUOTA)) {
+                Ok(r) => r,
+                Err(()) => return Verdict::Discard("timeout".into()),
+            }
+        } else {
+            run!(&args)
+        };
         let so = String::from_utf8_lossy(&r.stdout).to_string();
         let se = String::from_utf8_lossy(&r.stderr).to_string();
         let streams = |r: &RunOut| format!("--- stdout ---\n{}\n--- stderr ---\n{}", cut(&String::from_utf8_lossy(&r.stdout), 1500), cut(&String::from_utf8_lossy(&r.stderr), 800));
@@ -778,7 +826,10 @@ impl C20 {
         // legitimately create it; then the complete output must be there)
         let (expect_zero, failure_kind): (Option<bool>, &str) = match (lib_class, case.mode) {
             ("rejected", _) => (Some(false), "compile"),
-            (_, Mode::OutParentIsFile) | (_, Mode::OutIsDir) => (Some(false), "unwritable"),
+            (_, Mode::OutParentIsFile) | (_, Mode::OutIsDir) | (_, Mode::OutDevFull) => (Some(false), "unwritable"),
+            // the complete program cannot be written; what the exit status has to be is settled by the
+            // all-or-nothing rule below (0 demands the complete file)
+            (_, Mode::OutQuota) => (None, "size-limited"),
             (_, Mode::OutMissingDir) => (None, "unwritable"),
             ("runtime-fail", Mode::Run) => (Some(false), "runtime"),
             _ => (Some(true), ""),
@@ -908,7 +959,7 @@ impl C20 {
                             _ => "modified",
                         };
                         return viol(
-                            format!("C20/output-file/touched-on-failure/{}", how),
+                            "C20/output-file/touched-on-failure",
                             case,
                             format!("`{}` failed ({}) but the output file was {}: now {:?} bytes, before {:?} bytes\n{}", cmdline, r.status(), how, now.as_ref().map(|b| b.len()), was.map(|b| b.len()), streams(&r)),
                         );
@@ -919,13 +970,44 @@ impl C20 {
                 let t = target.as_ref().unwrap();
                 if r.ok() {
                     // a driver that creates the directory: then all-or-nothing demands the complete program
-                    if std::fs::read(t).ok().as_deref() != lib_bytes {
+                    let now = std::fs::read(t).ok();
+                    if now.is_none() {
+                        return viol("C20/output-file/missing-after-success", case, format!("`{}` exited with 0 but {} does not exist", cmdline, t.display()));
+                    }
+                    if now.as_deref() != lib_bytes {
                         return viol("C20/output-file/differs-from-library", case, format!("`{}` exited with 0 but {} does not hold the complete program", cmdline, t.display()));
                     }
                     labels.add("missing-dir-created");
                 } else if missing.exists() {
                     return viol("C20/unwritable/something-written", case, format!("`{}` failed ({}) but {} was created", cmdline, r.status(), missing.display()));
                 }
+            }
+            Mode::OutQuota => {
+                // all-or-nothing when the file cannot take the whole program
+                let t = target.as_ref().unwrap();
+                let now = std::fs::read(t).ok();
+                let complete = now.as_deref() == lib_bytes && lib_bytes.is_some();
+                if let Some(b) = &now {
+                    if !complete {
+                        let sig = if r.ok() { "C20/output-file/partial-after-success" } else { "C20/output-file/touched-on-failure" };
+                        return viol(
+                            sig,
+                            case,
+                            format!(
+                                "`{}` with the file size limited to {} bytes: {}, and the output file (did not exist before) now holds {} bytes{}\n{}",
+                                cmdline,
+                                QUOTA,
+                                r.status(),
+                                b.len(),
+                                lib_bytes.map(|l| format!(" — the first {} of the {} bytes of the program", b.len().min(l.len()), l.len())).unwrap_or_default(),
+                                streams(&r)
+                            ),
+                        );
+                    }
+                } else if r.ok() {
+                    return viol("C20/output-file/missing-after-success", case, format!("`{}` exited with 0 but {} does not exist", cmdline, t.display()));
+                }
+                labels.add("size-limited-held");
             }
             Mode::Stdout => {
                 if r.ok() {
@@ -1024,7 +1106,7 @@ impl C20 {
         }
 
         // ---- clause 6: `--no-std` changes nothing for std-free programs -------------------------------------------
-        if std_free && !case.mode.unwritable() {
+        if std_free && !case.mode.unwritable() && case.mode != Mode::OutQuota {
             let twin = outd.join("twin-stdtoggle.lua");
             let o: Option<String> = match case.mode {
                 Mode::Run => None,
@@ -1115,7 +1197,11 @@ impl Check for C20 {
         let mut t = Tape::new(u);
         let class = ["accepted", "rejected", "runtime"][t.weighted(&[40, 35, 25])];
         let uses_std = t.chance(2, 5);
-        let mode = [Mode::OutNew, Mode::Stdout, Mode::Run, Mode::OutExisting, Mode::OutMissingDir, Mode::OutParentIsFile, Mode::OutIsDir][t.weighted(&[22, 18, 25, 15, 7, 7, 6])];
+        // reported finding C20/output-file/partial-after-success (size-limited output file): the trigger is avoided
+        // for 80 % of the budget so that the search goes on; C20_AVOID=quota switches it off completely
+        let raw = t.chance(1, 5) && std::env::var("C20_AVOID").map(|v| !v.contains("quota")).unwrap_or(true);
+        let modes = [Mode::OutNew, Mode::Stdout, Mode::Run, Mode::OutExisting, Mode::OutMissingDir, Mode::OutParentIsFile, Mode::OutIsDir, Mode::OutDevFull, Mode::OutQuota];
+        let mode = modes[t.weighted(&[22, 18, 25, 15, 6, 6, 5, 4, if raw { 12 } else { 0 }])];
         // in run mode a required module can never be found (no such file; mini-Lua has no file system), so the
         // flag turns every accepted program into a run-time failure there: keep that combination, but rarer
         let require = match t.weighted(if mode == Mode::Run { &[70, 15, 15] } else { &[40, 30, 30] }) {
@@ -1257,7 +1343,9 @@ impl Check for C20 {
          errors in `start`, a helper function or a second file | accepted but failing at run time through a false `<=>` or a \
          reached `<!>`, directly, in a branch or in a called function) x uses-std (print/as_str) or std-free x mode (`-o FILE` \
          new / existing with short or 64 KiB previous content / in a missing directory / below a regular file / naming a \
-         directory; `-o -`; run mode) x `--require` (absent, plain, with .lua suffix) x `--no-std` x flag position (before, \
+         directory / /dev/full / new while the process may not grow files beyond 8 KiB (RLIMIT_FSIZE with SIGXFSZ ignored: \
+         a quota or nearly full disk; only in the 20 % of the budget that does not avoid open findings); absolute or \
+         cwd-relative `-o` path; `-o -`; run mode) x `--require` (absent, plain, with .lua suffix) x `--no-std` x flag position (before, \
          after, around the file) x short/long flag spelling. The real `sylt` binary runs in a private temp dir (NO_COLOR, \
          stdin null, mini-Lua `lua` first on PATH, 20 s timeout => discard). Oracle, differential against the library \
          (`tree`+`compile`) on the same materialised files: (1) exit status 0 <=> library accepts (run mode: and mini-Lua runs \
@@ -1268,7 +1356,8 @@ impl Check for C20 {
          of an `-o FILE` twin run; (5) `--require M`: output starts with preamble.lua (read at run time), then exactly one \
          `require \"M\"` (no .lua), rest identical to a twin run without the flag; (6) std-free programs: a twin run with \
          `--no-std` toggled has the same exit status and (mini-Lua) the same run outcome; (7) unwritable path: nothing created \
-         or changed at/under it. Silent where the property is silent (--help, no file, -v, --dump-tree, stdout content on \
+         or changed at/under it; size-limited file: afterwards the file is complete or absent (exit 0 with a truncated \
+         file = partial-after-success). Silent where the property is silent (--help, no file, -v, --dump-tree, stdout content on \
          success in file mode, wording of failures). non-trivial = at least two of {-o, --require, --no-std} given, or a \
          failing program, or an unwritable path; distinct by hash of the case"
             .into()
@@ -1311,6 +1400,7 @@ impl Check for C20 {
             ("mode:unwritable-missing-dir", 0.02),
             ("mode:unwritable-parent-is-file", 0.02),
             ("mode:unwritable-is-directory", 0.02),
+            ("mode:unwritable-dev-full", 0.01),
             ("require:plain", 0.08),
             ("require:suffix", 0.08),
             ("no-std", 0.15),
